@@ -17,7 +17,9 @@ CONSTANTS Classes, MaxCalls, Offsets
 VARIABLES hist, tree, success
 vars == <<hist, tree, success>>
 \* expected observable effect of one call, as a function of the parser's answer
-Rejected(c) == c \in {"syntax", "indent", "tab", "nul", "syntax_noline"}
+\* "unencodable": the text cannot be handed to the parser at all (a lone surrogate); "resource": the parser gives up
+\* (nesting too deep for its stack) -- both are rejections, reported without a line
+Rejected(c) == c \in {"syntax", "indent", "tab", "nul", "syntax_noline", "unencodable", "resource"}
 Expect(c, k) == [raised |-> FALSE,
                  syntaxfb |-> Rejected(c),
                  blankfb |-> c = "blank",
